@@ -519,7 +519,8 @@ struct Exec {
 
 		if(wrong_exc) fail("WRONG-EXCEPTION", "an exception that is neither the injected fault nor bad_alloc reached the caller: " + threw_what_);
 		if(threw && !fired) fail("WRONG-EXCEPTION", "the operation threw although no fault was injected: " + threw_what_);
-		if(W.violated()) { finish_violation(); return; }
+		// a breach recorded while the operation ran (lifetime, pointer, deallocate) does not end the step: the model transition and
+		// the invariants are still evaluated so that every property whose statement is broken in this step gets its own signature
 
 		// a stream fault that fired without an exception (e.g. a number cut short that still parses): no equality is demanded
 		if(fired && !threw && (op.kind == O_LOAD || op.kind == O_SAVE)) threw = true;
@@ -581,7 +582,7 @@ struct Exec {
 				});
 			}
 		}
-		if(W.violated()) { finish_violation(); return; }
+		// (same: keep evaluating)
 
 		// ---- postconditions P*
 		if(eff.expect_no_alloc && (ev[E_ALLOC] != 0 || ev[E_DEALLOC] != 0)) fail("P-allocated", eff.variant + " performed " + std::to_string(ev[E_ALLOC]) + " allocation(s) and " + std::to_string(ev[E_DEALLOC]) + " deallocation(s); it needs no new storage");
